@@ -186,6 +186,7 @@ pub fn lanes_for(prop: &str, tier: &str, seed: u64) -> Vec<Scenario> {
             v.extend(gen_cli::lane_env(seed));
             v.extend(gen_cli::lane_update(seed));
             v.extend(gen_cli::lane_create(seed));
+            v.extend(gen_cli::lane_fs_faults(seed));
             v.extend(gen_cli::lane_cli_fates(seed, if thorough { 1 } else { 6 }));
             v.extend(gen_cli::lane_random(Tier::Cli, seed, n_rand_cli * 2, "C18"));
         }
@@ -194,6 +195,7 @@ pub fn lanes_for(prop: &str, tier: &str, seed: u64) -> Vec<Scenario> {
             v.extend(gen_cli::lane_hard_failures(seed));
             v.extend(gen_cli::lane_directory(seed));
             v.extend(gen_cli::lane_cram_sizes(seed));
+            v.extend(gen_cli::lane_fs_faults(seed));
             v.extend(gen_cli::lane_summary(seed, if thorough { 1 } else { 2 }));
             v.extend(gen_cli::lane_cli_fates(seed, if thorough { 1 } else { 4 }));
             v.extend(gen::lane_fates(Tier::Lib, seed));
